@@ -469,10 +469,10 @@ func (mon) Plan(prop, tier string, seed int64) []drv.Shard {
 		a, _ := json.Marshal(shardArgs{Kind: "rand", Part: p, Parts: parts, Count: nrand / parts})
 		out = append(out, drv.Shard{Name: fmt.Sprintf("rand-%d", p), Args: a})
 	}
-	for i, gmp := range []string{"2", "4", "16"} {
-		a, _ := json.Marshal(shardArgs{Kind: "conc", Part: i, Count: nconc, G: []int{4, 16, 16}[i], N: 10000})
+	for i, gmp := range []string{"2", "4", "16", "1"} {
+		a, _ := json.Marshal(shardArgs{Kind: "conc", Part: i, Count: nconc, G: []int{4, 16, 16, 8}[i], N: 10000})
 		out = append(out, drv.Shard{Name: "conc-gomaxprocs" + gmp, Args: a, Env: []string{"GOMAXPROCS=" + gmp}, Solo: true})
-		a, _ = json.Marshal(shardArgs{Kind: "conc", Part: 10 + i, Count: nrace, G: []int{4, 8, 16}[i], N: 3000})
+		a, _ = json.Marshal(shardArgs{Kind: "conc", Part: 10 + i, Count: nrace, G: []int{4, 8, 16, 8}[i], N: 3000})
 		out = append(out, drv.Shard{Name: "race-gomaxprocs" + gmp, Args: a, Env: []string{"GOMAXPROCS=" + gmp}, Race: true, Solo: true})
 	}
 	return out
